@@ -422,6 +422,38 @@ def run_case(case):
                                         f"{where2[a_]} not grown): {prob}; "
                                         f"got {got_!r:.200}")
 
+        # ---------------- re-sow with a changed function, grow one finished
+        # batch AGAIN: a partial look and the full reap show the new values
+        # there (and the old ones elsewhere)
+        if raw and cases is None and len(combos) == 1 and \
+                not case["shuffle"] and kind in ("int", "str"):
+            kind2 = "str" if kind == "int" else "int"
+            fn2 = crops.record(kind2, None)
+            avals = combos["a"]
+            with under_test("third crop: grow, re-sow, re-grow one batch"):
+                cC = x.Crop(fn=fn, name="c9", parent_dir=root,
+                            **{spec[0]: spec[1]})
+                cC.sow_combos(combos, verbosity=0)
+                cC.grow_missing(verbosity=0)
+                BC = len(crops.batch_ids(root, "c9"))
+                cC2 = x.Crop(fn=fn2, name="c9", parent_dir=root)
+                cC2.sow_combos(combos, verbosity=0)
+                again = finished[0] % BC + 1
+                cC2.grow([again], verbosity=0)
+                whereC = {}
+                for i in range(1, BC + 1):
+                    for kw in crops.read_batch(root, "c9", i):
+                        whereC[models.plain(kw["a"])] = i
+                fullC = cC2.reap()
+            for a_, got_ in zip(avals, fullC):
+                want_ = models.result_of(
+                    kind2 if whereC[a_] == again else kind, {"a": a_})
+                require(models.deep_eq(got_, want_), "regrown-batch-stale",
+                        lambda: f"after a re-sow with another function batch "
+                                f"{again} was grown again: position a={a_} "
+                                f"(batch {whereC[a_]}) holds {got_!r:.100}, "
+                                f"expected {want_!r:.100}")
+
     plain = case["spec"][1] if spec[0] == "batchsize" else case["N"] // B
     odd_missing = any(bsizes[i] != plain for i in range(1, B + 1)
                       if i not in fin)
